@@ -645,3 +645,13 @@ PROPS['C06']['kani_meta'].update(BND(['cw/update_outside_region_n2']))
 PROPS['C06']['verus_only']['weights'] = PROPS['C06']['verus_only']['weights'] + [r'CacheWeight::update$']
 PROPS['C06']['floor'] = {'quick': 34, 'thorough': 34}
 
+
+
+# ids are handed out on CLIENT threads (CacheD::key_description): two overlapping calls of IncreasingIdGenerator::next must not return the same id.
+# Instrumentation X2c + one interfering call at any statement boundary of `next` (bounded: one interfering call, atomics are single steps).
+for _p in PROPS:
+    for _tier in ('quick', 'thorough'):
+        _l = PROPS[_p].get('kani', {}).get(_tier, [])
+        if 'idgen/ids_strictly_increase' in _l and 'idgen/overlapping_calls_get_distinct_ids' not in _l:
+            PROPS[_p]['kani'][_tier] = _l + ['idgen/overlapping_calls_get_distinct_ids']
+            PROPS[_p].setdefault('kani_meta', {}).update({'idgen/overlapping_calls_get_distinct_ids': dict(kind='bounded', note='one interfering call of next() at any statement boundary of next()')})
